@@ -58,6 +58,73 @@ func TestVerifReplayC14(t *testing.T) {
 }
 `
 
+// the handlers and the buffer pool of package templ: concurrent requests through templ.Handler, each goroutine
+// with its own component and a slow response writer; every body must be the document of its own component
+const c14RootHarness = `package templ
+
+import (
+	"context"
+	"fmt"
+	"io"
+	"net/http"
+	"net/http/httptest"
+	"strings"
+	"sync"
+	"testing"
+	"time"
+)
+
+type verifSlowRW struct {
+	hdr  http.Header
+	body strings.Builder
+}
+
+func (w *verifSlowRW) Header() http.Header { return w.hdr }
+func (w *verifSlowRW) WriteHeader(int)     {}
+func (w *verifSlowRW) Write(p []byte) (int, error) {
+	for i := 0; i < len(p); i += 64 {
+		w.body.Write(p[i:min(len(p), i+64)])
+		time.Sleep(20 * time.Microsecond)
+	}
+	return len(p), nil
+}
+
+func TestVerifReplayC14Root(t *testing.T) {
+	var wg sync.WaitGroup
+	bad := make(chan string, 64)
+	for g := 0; g < 8; g++ {
+		wg.Add(1)
+		go func(g int) {
+			defer wg.Done()
+			want := fmt.Sprintf("<h1>user-%02d</h1>", g) + strings.Repeat(string(rune('a'+g)), 600)
+			comp := ComponentFunc(func(ctx context.Context, w io.Writer) error {
+				_, err := io.WriteString(w, want)
+				return err
+			})
+			h := Handler(comp)
+			for i := 0; i < 150; i++ {
+				w := &verifSlowRW{hdr: http.Header{}}
+				h.ServeHTTP(w, httptest.NewRequest("GET", fmt.Sprintf("/page/%d", g), nil))
+				if w.body.String() != want {
+					select {
+					case bad <- fmt.Sprintf("request %d of goroutine %d received %q..., the document of its component starts %q", i, g, w.body.String()[:min(w.body.Len(), 24)], want[:24]):
+					default:
+					}
+					return
+				}
+			}
+		}(g)
+	}
+	wg.Wait()
+	close(bad)
+	for m := range bad {
+		fmt.Println("REPLAY-CONFIRMED concurrent requests interfere: " + m)
+		return
+	}
+	fmt.Println("REPLAY-NOT-REPRODUCED bounded run: 8 goroutines x 150 requests through templ.Handler with slow writers, race detector on")
+}
+`
+
 func replayC14(r *Run, o *Obligation) *ReplayResult {
 	if r.replayOut == nil {
 		r.replayOut = map[string]string{}
@@ -65,9 +132,17 @@ func replayC14(r *Run, o *Obligation) *ReplayResult {
 	out, ok := r.replayOut["C14"]
 	if !ok {
 		out, _ = r.runReplayTestFlags("runtime", c14Harness, map[string]string{}, "TestVerifReplayC14", "-race")
+		if !strings.Contains(out, "WARNING: DATA RACE") && !strings.Contains(out, "REPLAY-CONFIRMED") {
+			out2, _ := r.runReplayTestFlags(".", c14RootHarness, map[string]string{}, "TestVerifReplayC14Root", "-race")
+			if strings.Contains(out2, "WARNING: DATA RACE") || strings.Contains(out2, "REPLAY-CONFIRMED") || !strings.Contains(out2, "REPLAY-NOT-REPRODUCED") {
+				out = out2
+			} else {
+				out = strings.Replace(out, "race detector on", "race detector on; 8 goroutines x 150 requests through templ.Handler with slow writers", 1)
+			}
+		}
 		r.replayOut["C14"] = out
 	}
-	input := "8 goroutines x 200 renders on the real runtime under the race detector"
+	input := "8 goroutines x 200 renders on the real runtime and 8 x 150 requests through templ.Handler under the race detector"
 	if strings.Contains(out, "WARNING: DATA RACE") {
 		detail := "REPLAY-CONFIRMED the Go race detector reports a data race"
 		lines := strings.Split(out, "\n")
